@@ -5,10 +5,14 @@
    and given a fresh reference otherwise; alias_bounds_select - those bounds make the slicer select exactly the
    elements mn..mx of the parent's value (first declared element leftmost); refs_distinct_step - different sub-ranges
    never share a signal reference.
-   NOT proved: that find_vec identifies the parent vector (it is a premise of register_subrange_spec) and the alias
-   substitution of SignalSource::load_signals (its shape is proved under C07); decided by the correspondence run. *)
+   register_subrange_complete (Proofs/FindVecProofs.v) removes the premises of register_subrange_spec: after ANY sequence of
+   registrations (scalars, vectors, repeated and sub-range requests) the slots of every registered vector point back at
+   it (register_all_slots), so find_vec identifies the parent of any sub-range request (find_vec_spec), and the alias
+   table stays well formed (register_all_alias_ok).
+   NOT proved: the alias substitution of SignalSource::load_signals (its shape is proved under C07); decided by the
+   correspondence run. *)
 From WV Require Import Model.Base Model.Bits Model.WaveMem Model.Slice Spec.StoreSpec Proofs.BitsProofs Proofs.StoreProofs Proofs.EncoderProofs
-  Proofs.SliceProofs Proofs.SliceSignalProofs Model.GhwAlias Proofs.AliasProofs.
+  Proofs.SliceProofs Proofs.SliceSignalProofs Model.GhwAlias Proofs.AliasProofs Proofs.FindVecProofs.
 Open Scope N_scope.
 
 (* for every state kind, parent width and sub-range strictly inside the parent: slicing the packed
@@ -103,7 +107,28 @@ Check refs_distinct_step :
     exists a, nth_error (tr_aliases t') (length (tr_aliases t)) = Some a /\ ai_ref a = r)) ->
   refs_distinct t'.
 
+
+Check register_subrange_complete :
+  forall n ops t refs mn mx two vid v,
+  register_all (tr_new n) ops = Ok (t, refs) ->
+  nth_error (tr_vectors t) vid = Some v ->
+  (vi_min v <= mn)%nat -> (mn <= mx)%nat -> (mx <= vi_max v)%nat -> ~ (mx = vi_max v /\ mn = vi_min v) ->
+  exists t' r,
+    register_bit_vec t mn mx two = Ok (t', r) /\ alias_ok t' /\ extends t t' /\
+    (exists k a, nth_error (tr_aliases t') k = Some a /\
+                 ai_msb a = (vi_max v - mn)%nat /\ ai_lsb a = (vi_max v - mx)%nat /\ ai_ref a = r).
+
+Check find_vec_spec :
+  forall t vid v mn mx, vec_slots t -> nth_error (tr_vectors t) vid = Some v ->
+  (vi_min v <= mn)%nat -> (mn <= mx)%nat -> (mx <= vi_max v)%nat -> find_vec t mn mx = Ok (Some vid).
+
+Check register_all_slots :
+  forall ops t t' refs, vec_slots t -> register_all t ops = Ok (t', refs) -> vec_slots t'.
+
 Print Assumptions slice_n_states_spec.
+Print Assumptions register_subrange_complete.
+Print Assumptions find_vec_spec.
+Print Assumptions register_all_slots.
 Print Assumptions alias_bounds_select.
 Print Assumptions register_subrange_spec.
 Print Assumptions refs_distinct_step.
